@@ -58,6 +58,12 @@ NAME_OPTIONS = ["target_package_name", "client_name", "client_file_name", "base_
 BAD_NAMES = {"nonident": ["1abc", "a-b", "a b", "ä.b", "x!"], "keyword": ["class", "import", "None", "def"], "empty": [""]}
 
 
+COMPANIONS = [
+    ("+url", {"remote_schema_url": "http://x.test/graphql", "remote_schema_headers": {"X-Plain": "v"}}),
+    ("+custom_operations", {"enable_custom_operations": True}),
+]
+
+
 def config_violations():
     out = [
         ("cfg.no_schema_source", {"del": ["schema_path"]}, "InvalidConfiguration", ["schema"]),
@@ -170,6 +176,25 @@ def enumerate_cases(tier):
                 continue
             yield dict(kw, kind="violation", label=label, strategy=strategy_name, state=state)
 
+    def companions(label, strategy_name, edit, exc, needles):
+        """the same violation next to valid, unrelated options that select other code paths (a second schema source,
+        custom operations): a check skipped on one path must not let the violation through"""
+        if edit.get("no_section") or "schema_path" in edit.get("del", []):
+            return
+        for suffix, extra in COMPANIONS:
+            if set(extra) & set(edit.get("set", {})) or (strategy_name == "graphqlschema" and "enable_custom_operations" in extra):
+                continue
+            if label == "cfg.queries_path_absent" and "enable_custom_operations" in extra:
+                continue  # documented: queries_path is optional with custom operations - that configuration is valid
+            e2 = json.loads(json.dumps(edit))
+            e2.setdefault("set", {}).update(extra)
+            for state in DIR_STATES[:1]:
+                kf = open_tr.get("c17." + label) or open_tr.get("c17." + label.rsplit(".", 1)[0] + ".*")
+                if kf:
+                    yield {"_excluded": kf}
+                    continue
+                yield dict(kind="violation", label=label + suffix, strategy=strategy_name, state=state, edit=e2, exc=exc, needles=needles)
+
     for label, edit, exc, needles in config_violations():
         if ".name." in label:
             kind = label.rsplit(".", 1)[1]
@@ -181,8 +206,10 @@ def enumerate_cases(tier):
                 yield from emit(label, "client", edit=e2, exc=exc, needles=[bad])
         else:
             yield from emit(label, "client", edit=edit, exc=exc, needles=needles)
+            yield from companions(label, "client", edit, exc, needles)
     for label, edit, exc, needles in SCHEMA_TARGET_VIOLATIONS:
         yield from emit(label, "graphqlschema", edit=edit, exc=exc, needles=needles)
+        yield from companions(label, "graphqlschema", edit, exc, needles)
     for label, spec in SYNTAX:
         yield from emit(label, "client", files=spec, exc="InvalidGraphqlSyntax", needles=[])
         if "queries" not in spec:
